@@ -8,6 +8,7 @@
 package c16
 
 import (
+	"strings"
 	"fmt"
 	"math/big"
 	"slices"
@@ -388,6 +389,12 @@ type blockSpec struct {
 	Gap      int   // view distance to the parent (>1: views that timed out)
 	Proposer int   // 1..n
 	Signers  []int // distinct ids in vote-arrival order, at least a quorum; ignored for the first block
+	// GenSig (first block only): what the genesis certificate of the first block carries besides view 0 and the genesis hash.
+	// The genesis certificate verifies whatever its signature field holds, so a Byzantine proposer of the first block chooses:
+	// 0 nothing (what honest proposers send), 1 a signature object without participants, 2 a signature "by" the replicas in
+	// JunkSigners, 3 the same plus a replica id outside the configuration.
+	GenSig      int
+	JunkSigners []int
 }
 
 const (
@@ -440,6 +447,16 @@ func restoredSig(scheme string, signers []int) (hotstuff.QuorumSignature, error)
 		return crypto.RestoreBLS12AggregateSignature(infinityG2, bf)
 	}
 	return nil, fmt.Errorf("unknown scheme %q", scheme)
+}
+
+var domainAuthority *cert.Authority
+
+// domainAuth is an authority used only to decide whether a generated certificate belongs to the domain (verifies).
+func domainAuth() *cert.Authority {
+	if domainAuthority == nil {
+		domainAuthority = kit.NewCluster(crypto.NameECDSA, 4)[0].Auth
+	}
+	return domainAuthority
 }
 
 // replica is one independent replica: own configuration, block store, view states, own copies of the blocks.
@@ -536,7 +553,26 @@ func world(c histCase) ([]*replica, error) {
 		var qc hotstuff.QuorumCert
 		switch {
 		case i == 0:
-			qc = hotstuff.NewQuorumCert(nil, 0, hotstuff.GetGenesis().Hash())
+			var gs hotstuff.QuorumSignature
+			if spec.GenSig != 0 {
+				junk := append([]int(nil), spec.JunkSigners...)
+				if spec.GenSig == 1 {
+					junk = nil
+				}
+				if spec.GenSig == 3 {
+					junk = append(junk, n+5)
+				}
+				var err error
+				if gs, err = restoredSig(c.Sig, junk); err != nil {
+					return nil, err
+				}
+			}
+			qc = hotstuff.NewQuorumCert(gs, 0, hotstuff.GetGenesis().Hash())
+			// committed chains consist of blocks that honest replicas voted for, and they only vote for a block whose
+			// certificate verifies: a first block whose genesis certificate is refused is outside the domain
+			if err := domainAuth().VerifyQuorumCert(qc); err != nil {
+				return nil, fmt.Errorf("the first block's genesis certificate does not verify (case outside the domain): %w", err)
+			}
 		case c.Real:
 			// the leader combines the votes in arrival order
 			votes := make([]hotstuff.PartialCert, len(spec.Signers))
@@ -708,6 +744,22 @@ func runHistory(c histCase, name string, reps []*replica, cl classSet) (nontrivi
 		}
 		member := a >= 1 && int(a) <= n
 		active := m.signed(head) && v == m.views[head]+uint64(c.ChainLen)
+		// the head is the first block and its genesis certificate carries a signature object of the proposer's choosing:
+		// nothing about "signers" can be demanded; the answers must still agree (checked above) and name a configured replica
+		if head == 1 && c.Blocks[0].GenSig != 0 {
+			cl["junk-genesis-signature"] = true
+			switch name {
+			case leaderrotation.NameCarousel:
+				if !member {
+					return bad("carousel-member", "%s: the committed head carries a genesis certificate with a junk signature (kind %d, signers %v); leader %d is not a configured replica", where, c.Blocks[0].GenSig, c.Blocks[0].JunkSigners, a)
+				}
+			case leaderrotation.NameReputation:
+				if a != 0 && !member {
+					return bad("reputation-member", "%s: the committed head carries a genesis certificate with a junk signature; leader %d is neither a configured replica nor 0", where, a)
+				}
+			}
+			continue
+		}
 		if v >= 1<<32 {
 			cl["view>=2^32"] = true
 		}
@@ -804,6 +856,9 @@ func histProp(names ...string) func(histCase) common.Result {
 		nt := false
 		for _, name := range names {
 			reps, err := world(c) // fresh replicas per scheme
+			if err != nil && strings.Contains(err.Error(), "outside the domain") {
+				return common.OK(false, "", "outside the domain: a generated certificate is refused by verification")
+			}
 			if err != nil {
 				return common.Fail("harness", "cannot build the case: %v", err)
 			}
@@ -857,6 +912,11 @@ func genChain(rt *rapid.T, n, minLen, maxLen int) []blockSpec {
 		bs[i] = blockSpec{Gap: gap, Proposer: rapid.IntRange(1, n).Draw(rt, "proposer")}
 		if i > 0 {
 			bs[i].Signers = genSigners(rt, n, "signers")
+		} else {
+			bs[i].GenSig = rapid.SampledFrom([]int{0, 0, 0, 0, 0, 1, 2, 3}).Draw(rt, "gensig")
+			if bs[i].GenSig >= 2 {
+				bs[i].JunkSigners = rapid.SliceOfNDistinct(rapid.IntRange(1, n), 0, n, func(x int) int { return x }).Draw(rt, "junksigners")
+			}
 		}
 	}
 	return bs
@@ -981,6 +1041,9 @@ func TestC16CarouselSupport(t *testing.T) {
 			return common.Fail("harness", "chain too short")
 		}
 		reps, err := world(hc)
+		if err != nil && strings.Contains(err.Error(), "outside the domain") {
+			return common.OK(false, "", "outside the domain: a generated certificate is refused by verification")
+		}
 		if err != nil {
 			return common.Fail("harness", "cannot build the case: %v", err)
 		}
